@@ -149,6 +149,10 @@ func (c06) Generate(r *rand.Rand, t string) []*Case {
 	}
 	// op-order (c06_hist.go): hint / Anon operations before, between and after the renders
 	out = append(out, c06OpOrderCases(r, t)...)
+	// layout, pkg-names (c06_layout.go): the layouts of the import block x the kind of every import;
+	// the shapes of the File's package name
+	out = append(out, c06LayoutCases(r, t)...)
+	out = append(out, c06PkgNameCases(r, t)...)
 	return out
 }
 
